@@ -1,4 +1,4 @@
-import AmVerif.Model.Graph
+import AmVerif.Model.Local
 import AmVerif.Model.Chunk
 import AmVerif.Model.Wire
 /-
@@ -14,6 +14,12 @@ structure State where
   files : List (String × Bytes) := []
   /-- document / bundle chunks announced by the harness: chunk hash ↦ hashes of the changes inside -/
   docChunks : List (Bytes × List Hash) := []
+  actors : List (String × Bytes) := []
+  /-- open transaction per replica -/
+  txs : List (String × Tx) := []
+  /-- the change the model predicts for the last commit of a replica: (seq, startOp, deps, ops) -/
+  predicted : List (String × (Nat × Nat × List Hash × List Op)) := []
+  enc : Enc := .cp
   deriving Inhabited
 
 def parseId (s : String) : Option OpId :=
@@ -161,6 +167,42 @@ def loadResult (st : State) (r : String) (res : Option (Except Unit Doc)) : Stat
   | some (.error _) => (st, ["err"])
   | some (.ok d) => (setReplica st r d, [s!"ok {summary d}"])
 
+def parseProp (s : String) : Option (Sum Bytes Nat) :=
+  let rest := (s.drop 1).toString
+  match s.toList.head? with
+  | some 'm' => (bytesOfHex rest).map .inl
+  | some 'i' => rest.toNat?.map .inr
+  | _ => none
+
+/-- run one editing call of replica `r`: open the transaction if needed (`ensure_transaction_open` →
+    `transaction_args`, which also prunes conflicting queued changes of the same actor), evaluate
+    the call on applied ++ pending ops, append the new ops on success -/
+def edit (st : State) (r obj : String)
+    (f : Enc → List Op → Tx → ObjId → Option (Except EditErr (List Op) × Bool)) : State × List String :=
+  match parseObj obj, st.actors.find? (fun p => p.1 == r) with
+  | some o, some (_, actor) =>
+    let d := getReplica st r
+    let (t, st1) := match st.txs.find? (fun p => p.1 == r) with
+      | some (_, t) => (t, st)
+      | none =>
+        let d' : Doc := { d with queue := removeActorBranchFrom d.queue actor (d.seqForActor actor + 1) }
+        (d.beginTx actor, setReplica st r d')
+    let d := getReplica st1 r
+    match f st1.enc (d.ops ++ t.pending) t o with
+    | none => (st1, ["bad-input"])
+    | some (res, showId) =>
+      match res with
+      | .error e => ({ st1 with txs := (r, t) :: st1.txs.filter (fun p => p.1 != r) }, [s!"err {e.show}"])
+      | .ok newOps =>
+        let t' : Tx := { t with pending := t.pending ++ newOps }
+        let out := if showId then
+            match newOps.head? with
+            | some o => s!"ok {AmVerif.Crdt.showId o.id}"
+            | none => "ok"
+          else "ok"
+        ({ st1 with txs := (r, t') :: st1.txs.filter (fun p => p.1 != r) }, [out])
+  | _, _ => (st, ["bad-input"])
+
 def exec (st : State) (toks : List String) : State × List String :=
   match toks with
   | ["crdt.file", f, hex, _exp] =>
@@ -184,8 +226,18 @@ def exec (st : State) (toks : List String) : State × List String :=
     | some h, some a, some s, some so, some ds, some os =>
       ({ st with changes := ⟨h, a, s, so, ds, os⟩ :: st.changes }, ["ok"])
     | _, _, _, _, _, _ => (st, ["bad-input"])
-  | ["crdt.new", r, _enc, _actor] => (setReplica st r Doc.empty, ["ok"])
-  | ["crdt.fork", r, r2, _actor] => (setReplica st r2 { getReplica st r with queue := (getReplica st r).queue }, ["ok"])
+  | ["crdt.new", r, enc, actor] =>
+    match unhx actor with
+    | some a =>
+      let e : Enc := if enc == "utf8" then .utf8 else if enc == "utf16" then .utf16 else if enc == "gc" then .gc else .cp
+      (setReplica { st with actors := (r, a) :: st.actors.filter (fun p => p.1 != r), enc := e } r Doc.empty, ["ok"])
+    | none => (st, ["bad-input"])
+  | ["crdt.fork", r, r2, actor] =>
+    match unhx actor with
+    | some a =>
+      -- `fork()` commits the open transaction first; the generator never forks mid-transaction
+      (setReplica { st with actors := (r2, a) :: st.actors.filter (fun p => p.1 != r2) } r2 (getReplica st r), ["ok"])
+    | none => (st, ["bad-input"])
   | ["crdt.apply", r, hs] =>
     let hl := if hs == "-" then [] else hs.splitOn ","
     match hl.mapM (lookup st) with
@@ -202,18 +254,65 @@ def exec (st : State) (toks : List String) : State × List String :=
     | none => (st, ["bad-input"])
     | some c =>
       let d := getReplica st r
-      -- `transaction_args`: the local change claims (actor, seq); queued changes of a conflicting
-      -- branch of the same actor (and their dependents) are discarded
-      let d' : Doc := { applied := d.applied ++ [c], queue := removeActorBranchFrom d.queue c.actor c.seq }
-      (setReplica st r d', [s!"ok {summary d'}"])
-  | ["crdt.state", r] => (st, [showDoc (getReplica st r).ops])
+      let d' : Doc := { d with applied := d.applied ++ [c] }
+      let verdict :=
+        match st.predicted.find? (fun p => p.1 == r) with
+        | none => "unpredicted"
+        | some (_, (seq, so, deps, ops)) =>
+          if seq != c.seq then s!"MISMATCH seq predicted {seq}"
+          else if so != c.startOp then s!"MISMATCH startOp predicted {so}"
+          else if sortHashes deps != sortHashes c.deps then s!"MISMATCH deps predicted {showHashes deps}"
+          else if ops != c.ops then s!"MISMATCH ops predicted {repr ops}"
+          else "ok"
+      (setReplica { st with predicted := st.predicted.filter (fun p => p.1 != r) } r d', [s!"{verdict} {summary d'}"])
+  | ["crdt.state", r] =>
+    let pend := match st.txs.find? (fun p => p.1 == r) with | some (_, t) => t.pending | none => []
+    (st, [showDoc ((getReplica st r).ops ++ pend)])
   | ["crdt.state_at", r, hs] =>
     match unhxList hs with
     | some heads => (st, [showDoc ((getReplica st r).at heads).ops])
     | none => (st, ["bad-input"])
-  | cmd :: _ =>
-    if ["crdt.put", "crdt.putobj", "crdt.ins", "crdt.insobj", "crdt.del", "crdt.inc", "crdt.splice", "crdt.commit"].contains cmd
-    then (st, ["skip"]) else (st, ["unknown-cmd"])
-  | [] => (st, ["unknown-cmd"])
+  | ["crdt.put", r, obj, prop, v] => edit st r obj (fun e ops t o => do
+      let p ← parseProp prop; let sv ← parseScalar v
+      pure (localPut e ops t o p (.put sv) true, false))
+  | ["crdt.putobj", r, obj, prop, ty] => edit st r obj (fun e ops t o => do
+      let p ← parseProp prop; let ot ← parseObjType ty
+      -- put_object: (Map, Map) and (Seq, List) only
+      let bad := match p, objType ops o with
+        | .inr _, some .text => true
+        | _, _ => false
+      pure (if bad then .error .invalidOp else localPut e ops t o p (.make ot) true, true))
+  | ["crdt.ins", r, obj, idx, v] => edit st r obj (fun e ops t o => do
+      let i ← idx.toNat?; let sv ← parseScalar v
+      pure (localInsert e ops t o i (.put sv), false))
+  | ["crdt.insobj", r, obj, idx, ty] => edit st r obj (fun e ops t o => do
+      let i ← idx.toNat?; let ot ← parseObjType ty
+      pure (localInsert e ops t o i (.make ot), true))
+  | ["crdt.del", r, obj, prop] => edit st r obj (fun e ops t o => do
+      let p ← parseProp prop
+      pure (match objType ops o, p with
+        | some .text, .inr i => localSpliceText e ops t o i 1 []
+        | some .text, .inl _ => .error .invalidOp
+        | _, _ => localPut e ops t o p .del false, false))
+  | ["crdt.inc", r, obj, prop, n] => edit st r obj (fun e ops t o => do
+      let p ← parseProp prop; let k ← parseInt n
+      pure (localPut e ops t o p (.inc k) false, false))
+  | ["crdt.splice", r, obj, pos, del, text] => edit st r obj (fun e ops t o => do
+      let i ← pos.toNat?; let dl ← del.toNat?; let tx ← unhx text
+      pure (localSpliceText e ops t o i dl tx, false))
+  | ["crdt.commit", r] =>
+    match st.txs.find? (fun p => p.1 == r) with
+    | none => (st, ["none"])
+    | some (_, t) =>
+      let st' := { st with txs := st.txs.filter (fun p => p.1 != r) }
+      if t.pending.isEmpty then (st', ["none"]) else
+      let d := getReplica st r
+      let seq := d.seqForActor t.actor + 1
+      ({ st' with predicted := (r, (seq, t.startOp, d.localDeps t.actor, t.pending)) :: st'.predicted.filter (fun p => p.1 != r) }, ["ok"])
+  | ["crdt.rollback", r] =>
+    match st.txs.find? (fun p => p.1 == r) with
+    | none => (st, ["0"])
+    | some (_, t) => ({ st with txs := st.txs.filter (fun p => p.1 != r) }, [toString t.pending.length])
+  | _ => (st, ["unknown-cmd"])
 
 end Driver.Crdt
